@@ -168,8 +168,9 @@ class StepMonitor:
         return v
 
     def true_faces(self, resid):
-        z = resid >> self.n
-        return {i: gf2.popcount(hx & z) & 1 for i, hx in self.frows}
+        # full symplectic product of each face row with the residual
+        rs = gf2.swap_halves(resid, self.n)
+        return {i: gf2.popcount(self.H[i] & rs) & 1 for i, hx in self.frows}
 
     def on_flip(self, loc):
         loc = tuple(int(x) for x in loc)
@@ -337,6 +338,9 @@ def run_traj(task, out):
     em = PauliErrorModel(1 / 3, 1 / 3, 1 / 3)
     rect = 'rect' if len(set(size)) > 1 else 'cubic'
     mech = f'{dname}/{cls}/{rect}'
+    if cls == 'RotatedToric3DCode' and not code.is_css:
+        # L_x or L_y odd: the defect-line faces carry Z parts
+        mech += '/odd-size-non-css'
     bad_edges = task.get('_bad_edges')
     if bad_edges is None:
         # geometry first (also tells which edges are wrong, for tagging)
@@ -420,7 +424,7 @@ def plan(tier, seed):
         'Toric3DCode': [(3, 3, 3), (2, 3, 4), (4, 3, 2)],
         'Planar3DCode': [(3, 3, 3), (2, 3, 4), (4, 2, 3)],
         'RotatedPlanar3DCode': [(3, 3, 3), (4, 3, 2), (2, 4, 3)],
-        'RotatedToric3DCode': [(2, 2, 2), (4, 2, 3), (2, 4, 2)],
+        'RotatedToric3DCode': [(2, 2, 2), (4, 2, 3), (2, 4, 2), (2, 3, 2)],
     }
     traj_extra = {
         'Toric3DCode': [(4, 4, 4), (5, 3, 3), (2, 2, 5), (3, 5, 4), (4, 4, 3)],
@@ -495,6 +499,12 @@ def classify(v):
             m.endswith('/flip_edge-geometry/seam-faces-missing') or
             m.endswith('/after-flipping-seam-edge')):
         return 'C10:RotatedSweepDecoder3D/RotatedToric3DCode/seam-edge'
+    if m.startswith('RotatedSweepDecoder3D/RotatedToric3DCode/') and \
+            '/odd-size-non-css/' in m and (
+            'tracked-state-differs-from-true-residual' in m or
+            'clean-stop-with-residual-syndrome' in m):
+        return ('C10:RotatedSweepDecoder3D/RotatedToric3DCode/'
+                'odd-size-defect-faces-untracked')
     return None
 
 
